@@ -114,6 +114,7 @@ def _one(args):
     res = {"scenario": sc.name, "runs": 0, "accepted": 0, "stuck": [], "mc": None}
     try:
         ex = conc.Explorer(sc, base, max_runs=0)
+        ex.probe()
         rnd = random.Random(seed + idx)
         runs = []
         seen = set()
